@@ -445,6 +445,7 @@ func run(c *lib.Ctx) {
 			e.runConfig(&cf, rq)
 		}
 	}
+	partDoH(c, &idx)
 	if c.Mine(0) {
 		loopback(c)
 	}
@@ -509,6 +510,13 @@ func loopback(c *lib.Ctx) {
 
 func replay(c *lib.Ctx, raw json.RawMessage) string {
 	srv.Quiet()
+	var dc dohCase
+	if json.Unmarshal(raw, &dc) == nil && dc.Part == "doh" {
+		if k, d := runDoHCase(&dc); k != "" {
+			return k + ": " + d
+		}
+		return ""
+	}
 	var cs caseC
 	if err := json.Unmarshal(raw, &cs); err != nil {
 		return err.Error()
